@@ -145,6 +145,8 @@ func (g *g) leaf(op int, wf bool) *node {
 			n.arg = arg{t: 's', s: g.pick([]string{strconv.FormatFloat(v, 'g', -1, 64), "1.0", "1e3", ".5", "5.", "0x1p-2", "1_0", "inf", "-Inf", "nan", "+7", "1E2", "00.10", "Infinity"})}
 		case g.rng.Intn(8) == 0:
 			n.arg = arg{t: 'i', i: g.int64()}
+		case g.rng.Intn(12) == 0:
+			n.arg = arg{t: 'u', u: g.rng.Uint64() >> uint(g.rng.Intn(64))}
 		default:
 			n.arg = arg{t: 'f', f: v}
 		}
